@@ -16,6 +16,7 @@ from funtracks.import_export._import_segmentation import relabel_segmentation
 
 def harness(ctx, cfg):
     T, P, M = cfg["T"], cfg["P"], cfg["M"]
+    ctx.allow_realise = cfg.get("max_label") is not None
     IDMAX, SEGMAX = cfg.get("idmax", 4), cfg.get("segmax", 3)
     via_builder = cfg.get("via_builder", False)
     seg = SArr.fresh("c", (T, P), np.int64)
